@@ -211,14 +211,14 @@ def RoundTripStatement : Prop :=
     parseType (printTy t ++ rest) = .ok t rest
 
 /-- **roundtrip_partial** (T2 on the fragment `Ty.frag`: primitives, alias references without
-    arguments not named like a primitive, `^`, resources, non-partial tuples — named or not, with
-    named or positional fields —, function types and unions, nested WITHOUT BOUND): the real
-    parser's model reads the printed text back to exactly the same AST and stops exactly at `rest`.
-    Missing cases (the full statement is `RoundTripStatement`): partial types, spreads and
-    `'alias[...]` tuples, intersections, applied aliases `'t<…>`, `^N`, process types, module types,
-    `'`/`'<…>`, and references named `int`/`bin`/`ref` (printed `<'int>` / `(<'int>)`; the two
-    repairs dea6b02 and b32cfa9 are needed for those: `d1_…`, `d3_…` below). For these the statement
-    is evaluated on generated ASTs of every constructor by the harness (search, not proof). -/
+    arguments — INCLUDING the ones named `int`/`bin`/`ref`, printed `<'int>` resp. `(<'int>)` by the
+    repairs dea6b02 / b32cfa9 —, `^` and `^N`, resources, non-partial tuples — named or not, with
+    named or positional fields —, function types, unions and intersections, nested WITHOUT BOUND):
+    the parser's model reads the printed text back to exactly the same AST and stops exactly at
+    `rest`. Missing cases (the full statement is `RoundTripStatement`): partial types, spreads and
+    `'alias[...]` tuples, applied aliases `'t<…>`, process types, module types, `'`/`'<…>`. For
+    these the statement is evaluated on generated ASTs of every constructor by the harness (search,
+    not proof). -/
 theorem roundtrip_partial (t : Ty) (hw : WFType t) (hf : t.frag = true) (rest : Str)
     (hr : stopTd rest = true) : parseType (printTy t ++ rest) = .ok t rest := by
   have h := (knot_good t.lvT).td t hf hw (Nat.le_refl _) rest hr
@@ -250,6 +250,20 @@ example : WFType exampleTy ∧ exampleTy.frag = true ∧ stopTd ", 'bin]".toList
   decide +kernel
 example : parseType (printTy exampleTy ++ ", 'bin]".toList) = .ok exampleTy ", 'bin]".toList :=
   roundtrip_partial exampleTy (by decide +kernel) (by decide +kernel) _ (by decide +kernel)
+
+/-- a second witness with the constructors of the second round: intersections, `^N`, and
+    references named like a primitive in member, field, atom and function position:
+    `(A[x: <'int>] & ^2 | #(<'bin>) -> ('a & (<'ref>)) | <'int>)` -/
+def exampleTy2 : Ty :=
+  .union [
+    .inter [.tuple (some "A".toList) [.field (some "x".toList) (.ident "int".toList [])] false, .cycle (some 2)],
+    .func (.ident "bin".toList []) (.inter [.ident "a".toList [], .ident "ref".toList []]),
+    .ident "int".toList []]
+
+example : printTy exampleTy2 = "(A[x: <'int>] & ^2 | (#(<'bin>) -> ('a & (<'ref>))) | <'int>)".toList := by
+  decide +kernel
+example : parseType (printTy exampleTy2 ++ "]".toList) = .ok exampleTy2 "]".toList :=
+  roundtrip_partial exampleTy2 (by decide +kernel) (by decide +kernel) _ (by decide +kernel)
 
 /-- the side condition is necessary: behind a bare tuple name, a line that starts with `(` makes the
     whole alias unreadable (defect D2, repaired in the formatter by 63d9fac) -/
